@@ -556,6 +556,7 @@ func checkC13(c C13Case) (bool, *Violation) {
 		switch origin[i] {
 		case -1:
 			panicSeen = true
+			classifyIf(ww.Model.pairHeldAt(i, ww), "panic while both keys of an up/down pair are held")
 			for code, hn := range ww.Model.perKeySnapshot(i, ww) {
 				heldAtPanic[code] = true
 				heldPitches[hn] = true
@@ -639,6 +640,17 @@ func prevState(w *walk, i int) interface{} {
 		return w.Run.Initial
 	}
 	return w.Run.Steps[i-1].State
+}
+
+// pairHeldAt: both keys of some up/down pair are held just before step i.
+func (m *Model) pairHeldAt(i int, w *walk) bool {
+	mm := NewModel(w.Case.D)
+	for j := 0; j < i; j++ {
+		if s := w.Case.Steps[j]; s.T == "key" {
+			mm.Key(s.Sub, s.Code, s.Val)
+		}
+	}
+	return mm.CompletePairHeld()
 }
 
 // perKeySnapshot: the model's held note keys just before step i.
